@@ -102,7 +102,7 @@ def gen(rng, tier, k):
     pool_times = offs or [0.0]
     for _ in range(nops):
         op = rng.choice(["len", "getint", "getint", "slice", "mask", "iter", "first", "last", "first_last", "sorted", "append_item",
-                         "append_list", "after", "before", "between", "after", "between"])
+                         "append_list", "after", "before", "between", "after", "between", "edit"])
         src = rng.random()  # which pooled list to continue from (resolved at run time)
         x = rng.choice(pool_times) + rng.choice([0.0, 0.0, 0.0, -0.5, 0.5, 100.0, 50.0])
         y = rng.choice(pool_times) + rng.choice([0.0, 0.0, 0.5, 100.0, 250.0, 1000.0])
@@ -213,6 +213,22 @@ def run(ctx, case):
                     items, ex = None, e
                 with ctx.quiet():
                     L.judge_iter(ctx, cur, items, ex)
+            elif op == "edit":
+                # in-place edit through the column property (same list object, same length): whatever was derived from the
+                # old values (sortedness, extrema, positions) must not be remembered by later operations
+                def battery():
+                    for q in (lambda: len(cur), lambda: cur.first_offset(), lambda: cur.last_offset(), lambda: cur.sorted(), lambda: cur.sorted(reverse=True),
+                              lambda: cur.after(o["x"]), lambda: cur.before(o["x"]), lambda: cur.between(o["x"], o["y"]), lambda: cur[0], lambda: cur[-1]):
+                        try:
+                            q()
+                        except Exception:
+                            pass
+                if n:
+                    battery()  # asked, edited, asked the same again
+                    offs = cur.offset.to_numpy()
+                    cur.offset = (np.roll(offs, 1) if o["reverse"] else offs[::-1]) + (0.5 if o["sort"] else 0.0)
+                    ctx.state("c16.edited_in_place", True)
+                    battery()
             elif op == "first":
                 cur.first_offset()
             elif op == "last":
